@@ -14,3 +14,5 @@ mkdir -p .build/bin .build/c03
 .build/bin/instr -repo "$repo" -out "$ov" -yield -maporder
 go build ${VERIF_MODFLAG:-} -tags verif -overlay "$ov/overlay.json" -o "$out" ./checks/c03
 cp "$ov/report.json" "$out.instr.json"
+# auxiliary free-running pass: the same thread bodies under the race detector (needs cgo); optional
+CGO_ENABLED=1 go build ${VERIF_MODFLAG:-} -race -tags verif -overlay "$ov/overlay.json" -o "$out.race" ./checks/c03 || { echo "race build unavailable"; rm -f "$out.race"; }
